@@ -24,7 +24,7 @@ CaseRecord(d) ==
   LET body == POFamBody(d)
       m == [body |-> body, meaning |-> "", desc |-> ""]
       valid == POValidate(body)
-      ns == IF MsgHasPlural(body) THEN PONs ELSE <<3>> IN
+      ns == PONsFor(d) IN
   IF ~valid
   THEN [id |-> POFamId(d), parts |-> body, valid |-> FALSE]
   ELSE LET e == POExtract(m) IN
